@@ -1141,9 +1141,20 @@ def _io_side(ctx, o, func, what):
         dv = [n for n in walk_no_nested(func.node) if isinstance(n, ast.Assign) and n.value is op and isinstance(n.targets[0], ast.Name)]
         fvar = dv[0].targets[0].id if dv else None
     arg0 = cs.args[0] if cs.args else None
-    if fvar is None or not (isinstance(arg0, ast.Name) and arg0.id == fvar):
+    if fvar is None or arg0 is None:
         o.undecided(func, cs, cs, f"csv.{what}(...) is not built on the file object returned by open(...)")
         return None
+    if not (isinstance(arg0, ast.Name) and arg0.id == fvar):
+        a0 = fx.x(arg0, keep=[fvar]) if fx.flow.node_of_expr(arg0) is not None else arg0
+        kind, why = _line_source(a0, fvar) if what == 'reader' else ('unknown', None)
+        if kind == 'transformed':
+            o.refute(func, cs, f"csv.reader over {src(a0)[:90]}",
+                     f"csv.reader is fed from `{src(a0)[:90]}` - the file's physical lines {why} - instead of the file object: a quoted text "
+                     f"field that spans several physical lines (embedded line breaks, empty lines) is altered before the csv parser sees it")
+            return None
+        if kind != 'file':
+            o.undecided(func, cs, cs, f"csv.{what}(...) is not built on the file object returned by open(...)")
+            return None
     o.site(func, cs, f"csv.{what} on the opened file `{fvar}`")
     d = dict(open=op, csv=cs, func=func)
     d['mode'] = _arg_value(fx, func, op, 1, 'mode')
@@ -1154,6 +1165,48 @@ def _io_side(ctx, o, func, what):
     if len(cs.args) > 1:
         d['extra']['<dialect>'] = cs.args[1]
     return d
+
+
+def _line_source(x, fvar):
+    """what csv.reader's first argument (expanded) is relative to the opened file `fvar`:
+    ('file', None) the file object or an order/content preserving view of its lines | ('transformed', why) a filtered / stripped /
+    re-split / mapped sequence of its physical lines | ('unknown', None)"""
+    def mentions(n):
+        return any(isinstance(m, ast.Name) and m.id == fvar for m in ast.walk(n))
+
+    if isinstance(x, ast.Name):
+        return ('file', None) if x.id == fvar else ('unknown', None)
+    if isinstance(x, (ast.GeneratorExp, ast.ListComp)):
+        g = x.generators[0]
+        inner = _line_source(g.iter, fvar)
+        if inner[0] == 'unknown':
+            return inner
+        if inner[0] == 'transformed':
+            return inner
+        if len(x.generators) == 1 and not g.ifs and same(x.elt, g.target):
+            return 'file', None
+        if any(gg.ifs for gg in x.generators):
+            c = next(gg.ifs[0] for gg in x.generators if gg.ifs)
+            return 'transformed', f"filtered by `{src(c)[:50]}`"
+        return 'transformed', f"rewritten as `{src(x.elt)[:50]}`"
+    if isinstance(x, ast.Call):
+        fn = x.func
+        if isinstance(fn, ast.Name) and fn.id in ('iter', 'list', 'tuple') and len(x.args) == 1 and not x.keywords:
+            return _line_source(x.args[0], fvar)
+        if isinstance(fn, ast.Name) and fn.id in ('filter', 'map') and len(x.args) == 2:
+            inner = _line_source(x.args[1], fvar)
+            if inner[0] != 'unknown':
+                return 'transformed', f"passed through {fn.id}({src(x.args[0])[:40]}, ..)"
+            return inner
+        if isinstance(fn, ast.Attribute) and fn.attr == 'readlines' and not x.args and isinstance(fn.value, ast.Name) and fn.value.id == fvar:
+            return 'file', None
+        if isinstance(fn, ast.Attribute) and fn.attr in ('splitlines', 'split') and mentions(fn.value) and \
+                not any(k.arg == 'keepends' for k in x.keywords) and not (fn.attr == 'splitlines' and x.args):
+            return 'transformed', f"re-split by .{fn.attr}() (line terminators removed)"
+        name = fn.id if isinstance(fn, ast.Name) else (fn.attr if isinstance(fn, ast.Attribute) and attr_path(fn.value) == 'itertools' else None)
+        if name in ('dropwhile', 'takewhile', 'filterfalse') and len(x.args) == 2 and _line_source(x.args[1], fvar)[0] != 'unknown':
+            return 'transformed', f"passed through {name}({src(x.args[0])[:40]}, ..)"
+    return 'unknown', None
 
 
 def _eff(v):
